@@ -97,12 +97,12 @@ def run(files, entry="main.py", budget=200000, profile=None, collect_lines=None)
     return out.getvalue(), err
 
 
-def import_each(files, budget=200000):
+def import_each(files, budget=200000, only=None):
     """import every module of the project on its own (fresh interpreter state per module);
     returns {module path: error class or ''}"""
     res = {}
     for p in sorted(files):
-        if not p.endswith(".py"):
+        if not p.endswith(".py") or (only is not None and p not in only):
             continue
         mod = p[:-3].replace("/", ".")
         if mod.endswith(".__init__"):
